@@ -380,6 +380,73 @@ func ruleDedup(w *World, r *Report) {
 				r.bad("B-DEDUP", key, w.instrPos(lk), "outcome of the seen-set lookup not tested")
 				return
 			}
+			// the bookkeeping written as a helper "add(n) bool": new key => recorded
+			// and true, seen key => false; every caller keeps the node exactly when
+			// the helper says true
+			if res := fn.Signature.Results(); res.Len() == 1 {
+				if bt, ok := res.At(0).Type().Underlying().(*types.Basic); ok && bt.Kind() == types.Bool {
+					retConst := func(b *ssa.BasicBlock) (bool, bool) {
+						for _, x := range b.Instrs {
+							if ret, ok := x.(*ssa.Return); ok && len(ret.Results) == 1 {
+								if k, ok := strip(ret.Results[0]).(*ssa.Const); ok && k.Value != nil {
+									return k.Value.ExactString() == "true", true
+								}
+							}
+						}
+						return false, false
+					}
+					ins := false
+					for _, x := range notFound.Instrs {
+						if mu, ok := x.(*ssa.MapUpdate); ok && mu.Key == ssa.Value(hc) {
+							ins = true
+						}
+					}
+					nv, nok := retConst(notFound)
+					fv, fok := retConst(found)
+					callersOK, ncall := true, 0
+					for _, g := range w.AllFuncs {
+						eachInstr(g, false, func(_ *ssa.Function, in2 ssa.Instruction) {
+							c2, ok := in2.(*ssa.Call)
+							if !ok || c2.Call.StaticCallee() != fn {
+								return
+							}
+							ncall++
+							bb, fidx, ok := falseEdgeOf(c2)
+							if !ok {
+								callersOK = false
+								return
+							}
+							tb := bb.Succs[1-fidx]
+							keeps := false
+							for _, x := range tb.Instrs {
+								if ret, ok := x.(*ssa.Return); ok && len(ret.Results) == 1 && !isNilConst(strip(ret.Results[0])) {
+									keeps = true
+								}
+								if c, ok := x.(*ssa.Call); ok {
+									if b, ok := c.Call.Value.(*ssa.Builtin); ok && b.Name() == "append" {
+										keeps = true
+									}
+								}
+							}
+							fbk := bb.Succs[fidx]
+							for _, x := range fbk.Instrs {
+								if ret, ok := x.(*ssa.Return); ok && len(ret.Results) == 1 && !isNilConst(strip(ret.Results[0])) && len(fbk.Preds) == 1 {
+									keeps = false
+								}
+							}
+							if !keeps {
+								callersOK = false
+							}
+						})
+					}
+					if ins && nok && nv && fok && !fv && callersOK && ncall > 0 {
+						r.ok("B-DEDUP", key, w.instrPos(lk), "helper: new key => recorded and reported true, seen key => false; every caller keeps the node exactly on true")
+					} else {
+						r.bad("B-DEDUP", key, w.instrPos(lk), fmt.Sprintf("de-duplication bookkeeping broken (helper records the key on the new-key edge=%v, reports true there=%v, reports false when seen=%v, callers keep the node exactly on true=%v): nodes are reported twice or dropped", ins, nok && nv, fok && !fv, callersOK && ncall > 0))
+					}
+					return
+				}
+			}
 			ins, keep := false, false
 			for _, x := range notFound.Instrs {
 				if mu, ok := x.(*ssa.MapUpdate); ok && mu.Key == ssa.Value(hc) {
@@ -695,6 +762,16 @@ func ruleNumFormat(w *World, r *Report) {
 	eachInstr(fn, false, func(_ *ssa.Function, in ssa.Instruction) {
 		c, ok := in.(*ssa.Call)
 		if !ok || c.Call.StaticCallee() == nil || c.Call.StaticCallee().Pkg == nil || c.Call.StaticCallee().Pkg.Pkg.Path() != "strconv" {
+			return
+		}
+		// only conversions of a number: the formatted operand is a float64
+		isFloatArg := false
+		for _, a := range c.Call.Args {
+			if bt, ok := a.Type().Underlying().(*types.Basic); ok && (bt.Kind() == types.Float64 || bt.Kind() == types.Float32) {
+				isFloatArg = true
+			}
+		}
+		if !isFloatArg {
 			return
 		}
 		n++
